@@ -150,6 +150,18 @@ func (p *pathRun) mkPoint(fr *frame, co *curveObj, d, tau *smt.Term) (value, val
 			return newBigC(x), newBigC(y)
 		}
 	}
+	if co.cof > 1 {
+		// edwards25519: the identity (0,1) is an ordinary curve point; no case split,
+		// its coordinates are tied to (d,tau) = (0,0) by an axiom in both directions
+		x, y := p.coordTerms(co, d, tau)
+		key := fmt.Sprintf("edid:%d:%d", d.ID, tau.ID)
+		if p.counters[key] == 0 {
+			p.counters[key] = 1
+			isId := c.And(c.Eq(d, c.IntC64(0)), c.Eq(tau, c.IntC64(0)))
+			p.axiom("ed-identity-coords", c.Eq(isId, c.And(c.Eq(x, c.IntC64(0)), c.Eq(y, c.IntC64(1)))))
+		}
+		return p.newBig(x), p.newBig(y)
+	}
 	// identity is a fork (secp: the coordinates are the non-point (0,0))
 	dz := c.Eq(d, c.IntC64(0))
 	if d.Op == "mod" && d.Args[1].IsConst() {
@@ -305,7 +317,7 @@ func curveAdd(fr *frame, a []value) value {
 		x, y := p.havocPoint(co)
 		return tuple{x, y}
 	}
-	d := c.Mod(c.Add(d1, d2), c.IntC(co.N))
+	d := p.canonMod(c.Add(d1, d2), c.IntC(co.N))
 	tau := c.IntC64(0)
 	if co.cof > 1 {
 		tau = c.Mod(c.Add(t1, t2), c.IntC64(co.cof))
@@ -334,7 +346,7 @@ func curveScalarMult(fr *frame, a []value) value {
 		x, y := p.havocPoint(co)
 		return tuple{x, y}
 	}
-	d := c.Mod(c.Mul(d1, k), c.IntC(co.N))
+	d := p.canonMod(c.Mul(d1, k), c.IntC(co.N))
 	tau := c.IntC64(0)
 	if co.cof > 1 {
 		tau = c.Mod(c.Mul(t1, k), c.IntC64(co.cof))
@@ -353,7 +365,7 @@ func curveScalarBaseMult(fr *frame, a []value) value {
 		p.regConcPt(co, x, y, c.IntC(new(big.Int).Mod(k.Val, co.N)), c.IntC64(0))
 		return tuple{newBigC(x), newBigC(y)}
 	}
-	d := c.Mod(k, c.IntC(co.N))
+	d := p.canonMod(k, c.IntC(co.N))
 	x, y := p.mkPoint(fr, co, d, c.IntC64(0))
 	return tuple{x, y}
 }
